@@ -41,8 +41,14 @@ fn main() {
     let listing: Vec<String> = if kind == "pack-build" {
         a.iter().position(|x| *x == "--path" || *x == "-p").and_then(|i| a.get(i + 1)).copied()
             .or_else(|| a.iter().find_map(|x| x.strip_prefix("--path=")))
-            .and_then(|p| std::fs::read_dir(p).ok())
-            .map(|rd| { let mut v: Vec<String> = rd.flatten().map(|e| e.file_name().to_string_lossy().to_string()).collect(); v.sort(); v }).unwrap_or_default()
+            .and_then(|p| std::fs::read_dir(p).ok().map(|rd| (p, rd)))
+            .map(|(p, rd)| {
+                let mut v: Vec<String> = rd.flatten().map(|e| e.file_name().to_string_lossy().to_string()).collect();
+                v.sort();
+                // ... and the content of one nested file (a preprocessor may rewrite it in place)
+                if let Ok(c) = std::fs::read_to_string(std::path::Path::new(p).join("sub/file")) { v.push(format!("sub/file={c}")); }
+                v
+            }).unwrap_or_default()
     } else { vec![] };
     // for pack build: what every --buildpack argument that is a directory holds at this moment
     // (locally packaged buildpacks live in a temporary directory that is gone later)
